@@ -3,6 +3,7 @@ use super::hist::*;
 use crate::history::*;
 use crate::runner::*;
 use num_bigint::BigInt;
+use proptest::prelude::*;
 use serde_json::json;
 use std::collections::BTreeMap;
 
@@ -192,12 +193,12 @@ pub fn check_history(case: &HistoryCase, l: &mut Local) -> Result<(), String> {
 pub fn def() -> CheckDef {
     CheckDef {
         id: "C05",
-        rule: "generated mixed-op histories (open/increase v1,v2,by-amounts/decrease/reposition/swaps both directions and modes with limits/fee ops/close) \
+        rule: "generated mixed-op histories (open/increase v1,v2,by-amounts,for-boundary-amount/decrease/reposition/swaps both directions and modes with limits/fee ops/close; 2 of 5 also with reward ops and reward accumulators started near 2^128) \
                executed through the real entrypoint; after every successful instruction: harness ledger of requested deltas == Position.liquidity, \
                pool.liquidity == sum over ledger positions with lower <= tick_current < upper, and for all 88 slots of every tick array (fixed and \
                dynamic, decoded by the harness's own reader) net/gross/initialized equal the signed/unsigned sums.  Non-trivial = history in which a \
                swap crossed an initialized tick that bounds >= 2 positions with liquidity; distinct = hash of (world spec, ops).",
         assumptions: vec!["nsvm runtime, shims and SPL processors as in DESIGN.md §5", "liquidity chosen by increase_liquidity_by_token_amounts is taken from the account (decided by C08)"],
-        subs: vec![sub("histories", 30_000, 600_000, || history_strategy(false, false, 40), |c: &HistoryCase, l: &mut Local| check_history(c, l))],
+        subs: vec![sub("histories", 30_000, 600_000, || prop_oneof![3 => history_strategy(false, false, 40), 2 => history_strategy(true, true, 40)].boxed(), |c: &HistoryCase, l: &mut Local| check_history(c, l))],
     }
 }
